@@ -58,7 +58,7 @@ func init() {
 		specs: func(tier string) []specRef {
 			return []specRef{
 				hsx(rootPkg, "VerifC12_decode", P{"depth": 1, "long": q(tier, int64(0), 1), "all_splits": q(tier, int64(0), 1)}, 2000000, q(tier, 600, 3000), "decoded", "attrs", "nested"),
-				hsx(rootPkg, "VerifC12_stream", P{"long": q(tier, int64(0), 1), "all_splits": q(tier, int64(0), 1)}, 2000000, q(tier, 600, 3000), "streamstr", "streamint", "pushskip"),
+				hsx(rootPkg, "VerifC12_stream", P{"long": 0, "all_splits": q(tier, int64(0), 1)}, 2000000, q(tier, 600, 3000), "streamstr", "streamint", "pushskip"),
 				{dir: "", spec: &harnessSpec{Pkg: rootPkg, Name: "VerifC12_bigblob", MaxSteps: 200000000, MaxPaths: 1000, TimeoutS: 1800, Witnesses: []string{"big"}}},
 			}
 		},
